@@ -462,24 +462,7 @@ func ruleC02_4(c *Ctx) {
 			continue
 		}
 		pr := c.An.Prune(fn, as)
-		isK := func(in ssa.Instruction) bool {
-			if c.An.IsStripFields(in) {
-				return true
-			}
-			if call, ok := in.(*ssa.Call); ok {
-				cs := c.P.RepoCallees(call)
-				if len(cs) == 0 {
-					return false
-				}
-				for _, cal := range cs {
-					if !c.An.Must("STRIP-FIELDS", cal, c.An.IsStripFields) {
-						return false
-					}
-				}
-				return true
-			}
-			return false
-		}
+		isK := c.An.KUnder("STRIP-FIELDS", "qualified-no-cache", as, c.An.IsStripFields)
 		r := c.An.MustPass(pr, c.An.IsServeReturn, isK)
 		if r.Targets == 0 {
 			continue // only validated (304) returns here
